@@ -75,26 +75,31 @@ func outLast() any                               { return nil }
 //@ props C17 C18 C05
 //@ pure
 //@ ensures nonnil: r0 != nil
+//@ ensures [C17 C18] wall-clock-day-at-midnight-no-offset: sameVal(r0.Time, uninterp[time.Time]("ext_time_Date_r0", uninterp[int]("ext__time_Time__Year_r0", src), uninterp[time.Month]("ext__time_Time__Month_r0", src), uninterp[int]("ext__time_Time__Day_r0", src), 0, 0, 0, 0, offsetZero))
 
 //@ func NewTime
 //@ props C17 C18 C05
 //@ pure
 //@ ensures nonnil: r0 != nil
+//@ ensures [C17 C18] wall-clock-time-of-day-no-offset: sameVal(r0.Time, uninterp[time.Time]("ext_time_Date_r0", 0, time.Month(1), 1, uninterp[int]("ext__time_Time__Hour_r0", src), uninterp[int]("ext__time_Time__Minute_r0", src), uninterp[int]("ext__time_Time__Second_r0", src), uninterp[int]("ext__time_Time__Nanosecond_r0", src), offsetZero))
 
 //@ func NewTimeTZ
 //@ props C17 C18 C05
 //@ pure
 //@ ensures nonnil: r0 != nil
+//@ ensures [C17 C18] wall-clock-time-of-day-own-offset: sameVal(r0.Time, uninterp[time.Time]("ext_time_Date_r0", 0, time.Month(1), 1, uninterp[int]("ext__time_Time__Hour_r0", src), uninterp[int]("ext__time_Time__Minute_r0", src), uninterp[int]("ext__time_Time__Second_r0", src), uninterp[int]("ext__time_Time__Nanosecond_r0", src), offsetLocationFor(src)))
 
 //@ func NewTimestamp
 //@ props C17 C18 C05
 //@ pure
 //@ ensures nonnil: r0 != nil
+//@ ensures [C17 C18] wall-clock-fields-no-offset: sameVal(r0.Time, uninterp[time.Time]("ext_time_Date_r0", uninterp[int]("ext__time_Time__Year_r0", src), uninterp[time.Month]("ext__time_Time__Month_r0", src), uninterp[int]("ext__time_Time__Day_r0", src), uninterp[int]("ext__time_Time__Hour_r0", src), uninterp[int]("ext__time_Time__Minute_r0", src), uninterp[int]("ext__time_Time__Second_r0", src), uninterp[int]("ext__time_Time__Nanosecond_r0", src), offsetZero))
 
 //@ func NewTimestampTZ
 //@ props C17 C18 C05
 //@ pure
 //@ ensures nonnil: r0 != nil
+//@ ensures [C17 C18] wall-clock-fields-own-offset: sameVal(r0.Time, uninterp[time.Time]("ext_time_Date_r0", uninterp[int]("ext__time_Time__Year_r0", src), uninterp[time.Month]("ext__time_Time__Month_r0", src), uninterp[int]("ext__time_Time__Day_r0", src), uninterp[int]("ext__time_Time__Hour_r0", src), uninterp[int]("ext__time_Time__Minute_r0", src), uninterp[int]("ext__time_Time__Second_r0", src), uninterp[int]("ext__time_Time__Nanosecond_r0", src), offsetLocationFor(src)))
 
 //@ func (*Date).ToTimestamp
 //@ props C17 C18 C05
@@ -106,6 +111,7 @@ func outLast() any                               { return nil }
 //@ props C17 C18 C05
 //@ pure
 //@ ensures nonnil: r0 != nil
+//@ ensures [C17 C18] the-day-at-midnight-read-in-the-context-zone: r0 == NewTimestampTZ(ctx, time.Date(d.Time.Year(), d.Time.Month(), d.Time.Day(), 0, 0, 0, 0, TZFromContext(ctx)))
 //@ atcall Date assert [C17 C18] midnight-in-context-zone: arg_loc == TZFromContext(ctx) && arg_year == d.Time.Year() && arg_month == d.Time.Month() && arg_day == d.Time.Day() && arg_hour == 0 && arg_min == 0 && arg_sec == 0 && arg_nsec == 0
 
 //@ func (*Time).ToTimeTZ
@@ -130,6 +136,7 @@ func outLast() any                               { return nil }
 //@ props C17 C18 C05
 //@ pure
 //@ ensures nonnil: r0 != nil
+//@ ensures [C17 C18] the-wall-clock-read-in-the-context-zone: r0 == NewTimestampTZ(ctx, time.Date(ts.Time.Year(), ts.Time.Month(), ts.Time.Day(), ts.Time.Hour(), ts.Time.Minute(), ts.Time.Second(), ts.Time.Nanosecond(), TZFromContext(ctx)))
 //@ atcall Date assert [C17 C18] wall-clock-in-context-zone: arg_loc == TZFromContext(ctx) && arg_year == ts.Time.Year() && arg_month == ts.Time.Month() && arg_day == ts.Time.Day() && arg_hour == ts.Time.Hour() && arg_min == ts.Time.Minute() && arg_sec == ts.Time.Second() && arg_nsec == ts.Time.Nanosecond()
 
 //@ func (*TimestampTZ).ToDate
@@ -216,47 +223,57 @@ func outLast() any                               { return nil }
 //@ func (*Date).String
 //@ props C18 C16
 //@ atcall Format assert [C18 C16] own-layout: arg_layout == dateFormat && arg_recv == d.Time
+//@ ensures [C18 C16] text-is-the-formatted-value: r0 == uninterp[string]("ext__time_Time__Format_r0", d.Time, dateFormat)
 
 //@ func (*Date).MarshalJSON
 //@ props C18
 //@ atcall AppendFormat assert [C18] same-layout-as-String: arg_layout == dateFormat && arg_recv == d.Time
 //@ ensures [C18] no-error: r1 == nil
+//@ ensures [C18] a-quoted-string-always: len(r0) >= 2 && r0[0] == '"' && r0[len(r0)-1] == '"'
 
 //@ func (*Time).String
 //@ props C18 C16
 //@ atcall Format assert [C18 C16] own-layout: arg_layout == timeFormat && arg_recv == t.Time
+//@ ensures [C18 C16] text-is-the-formatted-value: r0 == uninterp[string]("ext__time_Time__Format_r0", t.Time, timeFormat)
 
 //@ func (*Time).MarshalJSON
 //@ props C18
 //@ atcall AppendFormat assert [C18] same-layout-as-String: arg_layout == timeFormat && arg_recv == t.Time
 //@ ensures [C18] no-error: r1 == nil
+//@ ensures [C18] a-quoted-string-always: len(r0) >= 2 && r0[0] == '"' && r0[len(r0)-1] == '"'
 
 //@ func (*TimeTZ).String
 //@ props C18 C16
 //@ atcall Format assert [C18 C16] own-layout: arg_layout == timeTZOutputFormat && arg_recv == t.Time
+//@ ensures [C18 C16] text-is-the-formatted-value: r0 == uninterp[string]("ext__time_Time__Format_r0", t.Time, timeTZOutputFormat)
 
 //@ func (*TimeTZ).MarshalJSON
 //@ props C18
 //@ atcall AppendFormat assert [C18] same-layout-as-String: arg_layout == timeTZOutputFormat && arg_recv == t.Time
 //@ ensures [C18] no-error: r1 == nil
+//@ ensures [C18] a-quoted-string-always: len(r0) >= 2 && r0[0] == '"' && r0[len(r0)-1] == '"'
 
 //@ func (*Timestamp).String
 //@ props C18 C16
 //@ atcall Format assert [C18 C16] own-layout: arg_layout == timestampFormat && arg_recv == ts.Time
+//@ ensures [C18 C16] text-is-the-formatted-value: r0 == uninterp[string]("ext__time_Time__Format_r0", ts.Time, timestampFormat)
 
 //@ func (*Timestamp).MarshalJSON
 //@ props C18
 //@ atcall AppendFormat assert [C18] same-layout-as-String: arg_layout == timestampFormat && arg_recv == ts.Time
 //@ ensures [C18] no-error: r1 == nil
+//@ ensures [C18] a-quoted-string-always: len(r0) >= 2 && r0[0] == '"' && r0[len(r0)-1] == '"'
 
 //@ func (*TimestampTZ).String
 //@ props C18 C16
 //@ atcall Format assert [C18 C16] own-layout: arg_layout == timestampTZOutputFormat && arg_recv == ts.Time
+//@ ensures [C18 C16] text-is-the-formatted-value: r0 == uninterp[string]("ext__time_Time__Format_r0", ts.Time, timestampTZOutputFormat)
 
 //@ func (*TimestampTZ).MarshalJSON
 //@ props C18
 //@ atcall AppendFormat assert [C18] same-layout-as-String: arg_layout == timestampTZOutputFormat && arg_recv == ts.Time
 //@ ensures [C18] no-error: r1 == nil
+//@ ensures [C18] a-quoted-string-always: len(r0) >= 2 && r0[0] == '"' && r0[len(r0)-1] == '"'
 
 // ---------------------------------------------------------------------------
 // hostile JSON: anything that is not a quoted string is an error (C18)
@@ -268,24 +285,34 @@ func outLast() any                               { return nil }
 //@ func (*Date).UnmarshalJSON
 //@ props C18
 //@ modifies d.*
+//@ ensures [C18] local-stored-as-parsed: r0 == nil ==> uninterp[error]("ext_time_Parse_r1", dateFormat, string(str)) == nil && sameVal(d.Time, NewDate(uninterp[time.Time]("ext_time_Parse_r0", dateFormat, string(str))).Time)
+//@ ensures [C18] unparsable-rejected: r0 != nil ==> errIs(r0, ErrSQLType)
 //@ ensures [C18] non-string-rejected: !(len(data) >= 2 && data[0] == '"' && data[len(data)-1] == '"') ==> r0 != nil && errIs(r0, ErrSQLType)
 
 //@ func (*Time).UnmarshalJSON
 //@ props C18
 //@ modifies t.*
+//@ ensures [C18] local-stored-as-parsed: r0 == nil ==> uninterp[error]("ext_time_Parse_r1", timeFormat, string(str)) == nil && sameVal(t.Time, NewTime(uninterp[time.Time]("ext_time_Parse_r0", timeFormat, string(str))).Time)
+//@ ensures [C18] unparsable-rejected: r0 != nil ==> errIs(r0, ErrSQLType)
 //@ ensures [C18] non-string-rejected: !(len(data) >= 2 && data[0] == '"' && data[len(data)-1] == '"') ==> r0 != nil && errIs(r0, ErrSQLType)
 
 //@ func (*TimeTZ).UnmarshalJSON
 //@ props C18
 //@ modifies t.*
+//@ ensures [C18] local-stored-as-parsed: r0 == nil ==> uninterp[error]("ext_time_Parse_r1", format, string(str)) == nil && sameVal(t.Time, uninterp[time.Time]("ext_time_Parse_r0", format, string(str)))
+//@ ensures [C18] unparsable-rejected: r0 != nil ==> errIs(r0, ErrSQLType)
 //@ ensures [C18] non-string-rejected: !(len(data) >= 2 && data[0] == '"' && data[len(data)-1] == '"') ==> r0 != nil && errIs(r0, ErrSQLType)
 
 //@ func (*Timestamp).UnmarshalJSON
 //@ props C18
 //@ modifies ts.*
+//@ ensures [C18] local-stored-as-parsed: r0 == nil ==> uninterp[error]("ext_time_Parse_r1", timestampFormat, string(str)) == nil && sameVal(ts.Time, NewTimestamp(uninterp[time.Time]("ext_time_Parse_r0", timestampFormat, string(str))).Time)
+//@ ensures [C18] unparsable-rejected: r0 != nil ==> errIs(r0, ErrSQLType)
 //@ ensures [C18] non-string-rejected: !(len(data) >= 2 && data[0] == '"' && data[len(data)-1] == '"') ==> r0 != nil && errIs(r0, ErrSQLType)
 
 //@ func (*TimestampTZ).UnmarshalJSON
 //@ props C18
 //@ modifies ts.*
+//@ ensures [C18] local-stored-as-parsed: r0 == nil ==> uninterp[error]("ext_time_Parse_r1", format, string(str)) == nil && sameVal(ts.Time, uninterp[time.Time]("ext_time_Parse_r0", format, string(str)))
+//@ ensures [C18] unparsable-rejected: r0 != nil ==> errIs(r0, ErrSQLType)
 //@ ensures [C18] non-string-rejected: !(len(data) >= 2 && data[0] == '"' && data[len(data)-1] == '"') ==> r0 != nil && errIs(r0, ErrSQLType)
